@@ -30,6 +30,6 @@ run_demo() { # returns 0 if demo passes
 echo "== demo WITHOUT patch"; if run_demo; then echo "   passes (expected)"; else echo "   FAILS (unexpected)"; tail -5 /tmp/sv-demo.$$; fi
 git apply $d/patch.diff || { echo "patch does not apply"; exit 1; }
 go build ./... || { echo "does not build"; exit 1; }
-echo "== existing suite WITH patch"; go test -vet=off -count=1 $(go list ./... | grep -v '/osmpbf$') 2>&1 | grep -v "^ok\|no test files" | grep -v "zz_seed\|Seed" | head -10; go test -vet=off -count=1 -run XXX ./osmpbf/ >/dev/null 2>&1 || echo "osmpbf does not compile"
+echo "== existing suite WITH patch"; go test -vet=off -count=1 -skip '(?i)seed|demo' $(go list ./... | grep -v '/osmpbf$') 2>&1 | grep -v "^ok\|no test files" | head -10; echo "   (suite done; lines above, if any, are failures)"; go test -vet=off -count=1 -run XXX ./osmpbf/ >/dev/null 2>&1 || echo "osmpbf does not compile"
 echo "== demo WITH patch"; if run_demo; then echo "   PASSES (unexpected: change not demonstrated)"; else echo "   fails (expected)"; grep -m3 -E "^\s+\S+_test.go|FAIL|panic" /tmp/sv-demo.$$ | cut -c1-200; fi
 rm -f /tmp/sv-demo.$$
